@@ -111,6 +111,8 @@ pub struct DiskRates {
     pub commit_fail_drops_pending: bool,
     /// hostile initial contents
     pub hostile_init: u32,
+    /// when not empty, set/remove failures hit only these keys (a partial storage fault)
+    pub fail_keys: Vec<String>,
 }
 
 impl DiskRates {
@@ -122,6 +124,7 @@ impl DiskRates {
             slow: 0,
             commit_fail_drops_pending: false,
             hostile_init: 0,
+            fail_keys: vec![],
         }
     }
 }
